@@ -32,7 +32,7 @@ CONFIG = {
              "dyadic, general and extreme finite floats) x labels admissible for every format variant of the case "
              "(printable ASCII with punctuation/quotes/brackets/underscores/spaces, distinct up to case) x construction "
              "route (from_dict with own or pre-built/permuted/over-full namespace; parsed from a NEXUS [TAXA+CHARACTERS "
-             "or DATA, sequential or interleaved] / PHYLIP [strict or relaxed, sequential multi-line or interleaved] / "
+             "or DATA, sequential or interleaved in 1-4 blocks with or without blank lines between blocks] / PHYLIP [strict or relaxed, sequential multi-line or interleaved in 1-4 blocks with or without blank lines] / "
              "FASTA [any wrap] document generated here; concatenate; export_character_indices; copy constructor / "
              "deepcopy / namespace-scoped copy / clone) x a chain of 1-3 write/read hops over NEXUS {simple, "
              "preserve_spaces}, NeXML {cells, seqs}, PHYLIP {strict, relaxed, underscore pair, multispace} x {sequential, "
@@ -42,7 +42,8 @@ CONFIG = {
              "first hop otherwise) the matrix is optionally used 0-2 times (symbols_as_string/str/len of every "
              "sequence, or written through a drawn format) and must be unchanged by that; in 40 % of the cases the "
              "matrix read back last is used again, changed through the public sequence API (column deleted, column "
-             "appended, cell overwritten from its column) and written/read once more against the updated "
+             "appended, cell overwritten from its column, matrix concatenated with itself [same object twice] or "
+             "extended with itself by extend_matrix) and written/read once more against the updated "
              "expectation.  Data sets: 1-3 namespaces "
              "each with a tree list and/or 1-3 matrices (from_dict, concatenate, or with new_character_subset; "
              "continuous ones with negative / small-exponent values) added in drawn order, labels optionally with "
@@ -882,7 +883,9 @@ def check_matrix(ctx, case):
                     for _, cells in want:
                         cells.extend(list(cells))
                 elif op["op"] == "self_extend":
-                    if len(want[0][1]) > 200:
+                    # (rectangular only: in a ragged matrix the appended halves start at different positions, so the
+                    # cells of one column definition would no longer sit in one column)
+                    if not rect or len(want[0][1]) > 200:
                         continue
                     m.extend_matrix(m)
                     for _, cells in want:
